@@ -28,15 +28,22 @@ from ..core import Result
 
 REQUIRED_THEOREMS = [
     "C05.final_name_complete",
+    "C05.crash_state_ok",
     "C05.crash_recovery",
-    "C05.recovery_idempotent",
+    "C05.recovery_idempotent_partial",
+    "C05.later_calls_correct_partial",
+    "C05.stale_after_crash_witness",
+    "C05.old_code_F8_witness",
+    "C05.old_code_F9_witness",
 ]
 TRUSTED_EXTRA = [
     "modelled, not verified: the kernel at kill -9 (a completed rename/unlink/mkdir is durable, an interrupted write leaves a "
     "prefix; no power-loss reordering), rename atomicity, open files surviving unlink (inode model), ext4 directory order "
     "(taken from the strace log and given to the model as an input)",
-    "numpy_pickle.dump/load and json are parameters of the model (Codec): unpickle(pickle v) = v; load of a strict prefix "
-    "raises (C14's contract, used only by the defence-in-depth theorem C05.recover_tolerates_torn_output)",
+    "numpy_pickle.dump/load and json are parameters of the model (Codec): unpickle(pickle v) = v (C14's contract 'a strict "
+    "prefix does not load' is not needed: no torn result ever has a final name); the comparison of func_code.py with the "
+    "live source is a parameter constrained by CodeOK and instantiated by the byte-level transcription checkCodeImpl, "
+    "tied to joblib.memory.extract_first_line on every prefix of real func_code.py texts (stream func_code-read)",
     "strace -f -y log parsing and canonicalisation (harness/fstrace.py); torn writes are produced by the harness from a "
     "kill at write(2) + extending the file to a prefix of its complete content",
 ]
@@ -290,6 +297,31 @@ def _copy(src, dst):
         shutil.copytree(src, dst, symlinks=True)
 
 
+def _check_final_names(cache):
+    """Oracle 2 (no model): every `output.pkl` present loads (joblib.load) and every `metadata.json` parses and has a
+    time stamp. -> list of problems."""
+    import joblib
+
+    bad = []
+    for root, _, fns in os.walk(cache):
+        for fn in fns:
+            p = os.path.join(root, fn)
+            if fn == "output.pkl":
+                try:
+                    v = joblib.load(p)
+                    if not (isinstance(v, list) and len(v) == 3 and v[2] in SRC.values() and v[1] == 2 * v[0]):
+                        bad.append(("output.pkl", "unexpected value %r" % (v,)))
+                except BaseException as e:  # noqa: BLE001
+                    bad.append(("output.pkl", type(e).__name__))
+            elif fn == "metadata.json":
+                try:
+                    if "time" not in json.loads(open(p, "rb").read().decode("utf-8")):
+                        bad.append(("metadata.json", "no time"))
+                except BaseException as e:  # noqa: BLE001
+                    bad.append(("metadata.json", type(e).__name__))
+    return bad
+
+
 def _kill_case(a):
     """One crash point (runs in a pool worker). Returns a picklable record."""
     (base, wname, when, pre_dir, ids, clean_files, setup_ops, setup_mes, tier_thorough, rng_vals, variants) = a
@@ -334,6 +366,7 @@ def _kill_case(a):
                 out["first_write"] = not (kp["ops"] and kp["ops"][-1] == f"write {cp}")
     state = os.path.join(kdir, "state")
     _copy(cache, state)
+    out["final_names"] = _check_final_names(cache)
     for tv in torn_variants:
         for variant in variants:
             if tv is not None and variant != "plain" and not tier_thorough and not out["torn_file"].endswith("func_code.py"):
@@ -358,6 +391,8 @@ def _kill_case(a):
             recs = []
             cbv = "long" if variant == "expires" else "none"
             seq = [X] + list(w["bystanders"]) + [X]
+            if variant != "plain" and not tier_thorough:
+                seq = [X] + list(w["bystanders"])[:1]
             for ri, arg in enumerate(seq):
                 p = _call(arg, ver=w["ver"], cb=cbv, shelve=w.get("shelve", 0) if variant == "plain" else 0,
                           compress=w.get("compress", 0))
@@ -634,6 +669,8 @@ def _explore(ctx, budget_scale=1, only=None):
         if ko.get("not_killed"):
             res.count("kill-after-the-last-call")
             continue
+        for fn, why in ko.get("final_names", []):
+            res.fail(f"final-name-incomplete:{fn}", dict(workload=wname, when=ko["when"]), why)
         for c in ko["cases"]:
             j = len(c["killed_ops"])
             covered[wname].add(j)
